@@ -62,8 +62,17 @@ def generate(rng, index, tier):
     tids = [700 + 9 * i + rng.randrange(5) for i in range(nthreads)]
     if rng.chance(0.25):
         tids[-1] = rng.pick([(1 << 40) + 5, 999999999999, (1 << 63) + 12345, 123456789012345])     # a real 64-bit thread id
+    if rng.chance(0.08):
+        tids[0] = 0                  # thread id 0
     declared = [t for t in tids if rng.chance(0.55)]
     pids = {t: 60000 + i for i, t in enumerate(tids)}
+    zero_slot = False
+    if tids[0] == 0 and rng.chance(0.6):
+        # ... of process 0, which has no name: a thread-map entry that is zero in every field is still a declaration
+        pids[0] = 0
+        zero_slot = True
+        if 0 not in declared:
+            declared.append(0)
     threads = []
     for ti, tid in enumerate(tids):
         ctx = worlds.Ctx(ti, tid)
@@ -112,7 +121,7 @@ def generate(rng, index, tier):
     sched = draw_sensitive(rng, per, tool.codes()) if shape == 'sensitive' else kernel.draw_schedule(rng, per, shape)
     version = rng.pick([2, 2, 3])
     w = worlds.gen_writer(rng, version, threads, sum(len(p) for p in per), logs=True)
-    names = {}
+    names = {0: ''} if zero_slot else {}
     w['tmap'] = [[t, pids[t], names.setdefault(pids[t], rng.ident(2, 12)), rng.pick(['', '', 'ff41', '726f787900', '00414243'])] for t in declared]
     if rng.chance(0.3):
         w['tmap'].append([rng.randrange(5000, 6000), 62000, rng.ident(2, 8), ''])
